@@ -502,6 +502,11 @@ func liftRegions(spec *Spec) (map[string][]byte, error) {
 		return nil, err
 	}
 	liftedSrc[spec.Property] = r.Source
+	if f := os.Getenv("VERIF_AUTOALT"); f != "" {
+		// maintenance: write the current parameter order and neighbour anchors of every region
+		b, _ := json.MarshalIndent(r.Auto, "", " ")
+		os.WriteFile(f, b, 0644)
+	}
 	if d := os.Getenv("VERIF_DUMP"); d != "" {
 		os.MkdirAll(d, 0755)
 		os.WriteFile(filepath.Join(d, "lifted_"+spec.Property+".go"), []byte(r.Source), 0644)
